@@ -79,6 +79,14 @@ def check(chk):
     chk.judge('crc = CRC24_INIT' in s24 and '(data & 255) << 16' in s24 and 'crc & 16777216' in s24 and 'crc ^= CRC24_POLY' in s24 and 'range(8)' in s24,
               'C06.const', c24, 'compute_crc24 shape (init, byte fold at bit 16, 8 shifts, poly on bit 24)', 'compute_crc24 changed shape')
 
+    # the CRC folds every one of the `length` bytes, zero bytes included: no exit from the byte loop or the bit loop but their end
+    loops24 = [n for n in body_walk(c24) if isinstance(n, (ast.For, ast.While))]
+    early = [n for n in body_walk(c24) if isinstance(n, (ast.Break, ast.Continue))] + \
+        [n for l in loops24 for n in ast.walk(l) if isinstance(n, ast.Return)]
+    chk.judge(len(loops24) == 2 and not early and any(isinstance(l, ast.For) and src(l.iter) == 'range(length)' for l in loops24), 'C06.const', c24,
+              'compute_crc24 runs its byte loop `length` times and its bit loop 8 times, without early exit',
+              'the CRC24 loops can end early (%s): a header whose remaining bytes are zero gets a different CRC than the specification' % ', '.join('line %d' % n.lineno for n in early))
+
     # ---- header layout: writer
     it0 = Interp(seg, folder)
     enc, eo = it0.resolve_method(sc, 'encode_header')
